@@ -330,3 +330,44 @@ def head_patch_guard(ctx, repo):
         ok = any(g.dominates(g.id_of(gd), g.id_of(sk)) and ("< 12" in norm(gd.test) or "<= 11" in norm(gd.test)) for gd in guards)
         pos = any(("length >= 12" in norm(t) or "length > 11" in norm(t)) and pol for t, pol in guard_conditions(sk))
         ctx.ob("HEAD-patch", f.where, f"{norm(sk)} is reached only when head.length >= 12", ok or pos, "" if ok or pos else "a head table shorter than 12 bytes makes the 4-byte write clobber the table stored after it")
+
+
+def tagid_discriminator(ctx, repo):
+    ctx.rule("TAGID-len", "xmlToTag recognises an escaped table tag by a test that holds for every identifier tagToIdentifier can return: the encoder trims trailing spaces (two characters per remaining tag character) and may prepend '_', so a fixed-length test (len(tag) == 8) misses escaped tags of other lengths", floor=1)
+    m = repo.mod("ttLib/ttFont.py")
+    t2i, x2t = m.func("tagToIdentifier"), m.func("xmlToTag")
+    trims = any(isinstance(n, ast.While) for n in ast.walk(t2i.node)) or any(isinstance(n, ast.Call) and isinstance(n.func, ast.Attribute) and n.func.attr in ("rstrip", "strip") for n in ast.walk(t2i.node))
+    prefixes = any(isinstance(n, ast.Assign) and isinstance(n.value, ast.BinOp) and isinstance(n.value.left, ast.Constant) and n.value.left.value == "_" for n in ast.walk(t2i.node))
+    fixed = [norm(n) for n in ast.walk(x2t.node) if isinstance(n, ast.Compare) and isinstance(n.left, ast.Call) and norm(n.left.func) == "len" and isinstance(n.ops[0], ast.Eq) and isinstance(n.comparators[0], ast.Constant)]
+    variable_len = trims or prefixes
+    ok = not (variable_len and fixed)
+    ctx.ob("TAGID-len", x2t.where, f"escaped identifiers are recognised by {fixed or 'a length-independent test'}; encoder output length is {'variable' if variable_len else 'fixed'}", ok, "" if ok else "a table tag such as 'a+  ' (identifier '_a2b', 4 characters) or '/abc' (9 characters) is written escaped but read back literally: the dump cannot be re-imported under the same tag")
+
+
+def uniq_pool(ctx, repo):
+    ctx.rule("UNIQ-pool", "a name made unique with makeUniqueGroupName(name, pool) and then recorded as the VALUE of a rename map is checked against a pool that contains that map's values (the names handed out so far), not only its keys (the old names)", floor=2)
+    m = repo.mod("ufoLib/converters.py")
+    n = 0
+    for q, f in sorted(m.funcs.items()):
+        for lp in [x for x in walk_no_nested(f.node) if isinstance(x, ast.For)]:
+            calls = [c for c in ast.walk(lp) if isinstance(c, ast.Call) and (call_name(c) or "").endswith("makeUniqueGroupName") and len(c.args) >= 2]
+            for c in calls:
+                st = c
+                while not isinstance(st, ast.Assign) and st is not None:
+                    st = parent(st)
+                if st is None:
+                    continue
+                res = norm(st.targets[0])
+                # map that records the result as a value
+                maps = [s for s in ast.walk(lp) if isinstance(s, ast.Assign) and isinstance(s.targets[0], ast.Subscript) and norm(s.value) == res]
+                if not maps:
+                    continue
+                D = norm(maps[0].targets[0].value)
+                pool = c.args[1]
+                pdef = [s for s in ast.walk(lp) if isinstance(s, ast.Assign) and norm(s.targets[0]) == norm(pool)]
+                ptxt = norm(pdef[0].value) if pdef else norm(pool)
+                n += 1
+                ok = f"{D}.values()" in ptxt
+                ctx.ob("UNIQ-pool", f.where, f"{res} is stored as a value of {D}; pool = {ptxt[:80]}", ok, "" if ok else f"the pool lists {D}'s keys (old names): two old names that map to the same new name are not told apart and one group overwrites the other")
+    if n < 2:
+        raise AnalysisError(f"UNIQ-pool: {n} make-unique sites found (2 confirmed: first and second side)")
